@@ -7,6 +7,8 @@ import Mathlib.Algebra.Order.Field.Basic
 import Mathlib.Tactic.FieldSimp
 import Mathlib.Tactic.Ring
 import Mathlib.Tactic.CasesM
+import Mathlib.Algebra.BigOperators.Group.List.Basic
+import Mathlib.Tactic.Linarith
 
 namespace Dassh.Props.C02
 open Dassh.Gen.C02
@@ -94,5 +96,39 @@ theorem c02_interface {K : Type} [Field K] [LinearOrder K] [IsStrictOrderedRing 
     rw [e1, e2, hcol]
     field_simp
   rw [List.map_congr_left hL, List.map_congr_left hR, sum_swap]
+
+/-! ### summed over the sweep
+
+The per-step statements (`c02_gap_step_*`, `c02_interface`, C01's bundle and low-fidelity balances, C01's region carry-over) say that
+over one step the enthalpy flow `H` of all assembly and gap coolant rises by the power `q` delivered in that step.  Over any number
+of steps the rises telescope: outlet enthalpy flow = inlet enthalpy flow + total power delivered. -/
+
+/-- every step closes: consecutive plane values `H` differ by the power `q` delivered in the step between them -/
+def StepsClose : List K → List K → Prop
+  | h0 :: h1 :: hs, q :: qs => h1 - h0 = q ∧ StepsClose (h1 :: hs) qs
+  | [_], [] => True
+  | _, _ => False
+
+/-- enthalpy flows at the planes `H₀, H₁, …, Hₙ` and the power delivered in each of the `n` steps: if every step closes, the sweep
+closes - for any number of steps -/
+theorem c02_sweep_telescopes [LinearOrder K] [IsStrictOrderedRing K] (h0 : K) (hs qs : List K)
+    (hc : StepsClose (h0 :: hs) qs) : (h0 :: hs).getLast (by simp) - h0 = qs.sum := by
+  induction hs generalizing h0 qs with
+  | nil =>
+    cases qs with
+    | nil => simp
+    | cons q qs => simp [StepsClose] at hc
+  | cons h1 t ih =>
+    cases qs with
+    | nil => simp [StepsClose] at hc
+    | cons q qs' =>
+      obtain ⟨h01, hrest⟩ := hc
+      have := ih h1 qs' hrest
+      rw [List.getLast_cons (by simp)]
+      simp only [List.sum_cons]
+      linarith
+
+/-- non-vacuity: three planes, two steps -/
+example : StepsClose [(1 : ℚ), 3, 6] [2, 3] := by simp [StepsClose]; norm_num
 
 end Dassh.Props.C02
